@@ -3,6 +3,7 @@ import FluentModel.Resolver
 import FluentModel.ResolverSpec
 import FluentModel.Builtins
 import FluentModel.Plural
+import FluentModel.Pseudo
 import FluentModel.Unescape
 import FluentModel.Drv.Common
 /-!
@@ -97,6 +98,15 @@ def kvOf (cfg : String) (key : String) : String :=
   | v :: _ => v
   | [] => ""
 
+/-- text transform `pseudo`: `fluent_pseudo::transform(s, false, true)` (accented, elongated) -/
+def pseudoTransform (b : Bytes) : Bytes :=
+  match String.fromUTF8? ⟨b.toArray⟩ with
+  | none => b
+  | some str =>
+    match Pseudo.transform Pseudo.generatedTables false true str.toList with
+    | .done cs => strBytes (String.ofList cs)
+    | .panic _ => strBytes "<<pseudo-panic>>"
+
 def unescapeTotal (b : Bytes) : Bytes :=
   match Unescape.unescapeUnicode [] b.toArray with
   | .done o => o
@@ -172,7 +182,8 @@ def runOne (payload : String) : String :=
           term := fun id => match reg.get id with | some (.term t) => some t | _ => none
           fn := fun id => match reg.get id with | some (.function f) => some f | _ => none
           useIsolating := iso
-          transform := if tr == "upper" then some Builtins.upperAscii else none
+          transform := if tr == "upper" then some Builtins.upperAscii
+                       else if tr == "pseudo" then some pseudoTransform else none
           formatter := if fm == "numbr" then some Builtins.formatterNumBr
                        else if fm == "strwrap" then some Builtins.formatterStrWrap else none
           category := fun n => (Plural.pluralCategory loc n).map fun c =>
